@@ -4,6 +4,7 @@ package drv
 
 import (
 	"fmt"
+	"regexp"
 	"runtime/debug"
 	"sort"
 	"strings"
@@ -268,6 +269,14 @@ func CanonAttrs(m *ds.ValueMap) string {
 	return sb.String()
 }
 
+var reSyntaxHeader = regexp.MustCompile(`^\d+:\d+ \(\d+\)`)
+
+// IsSyntaxError: errors produced by the parser start with "line:col (offset)".
+func IsSyntaxError(err error) bool {
+	s := err.Error()
+	return reSyntaxHeader.MatchString(s) || strings.HasPrefix(s, "max number of expressions") || strings.HasPrefix(s, "E1:") || strings.HasPrefix(s, "正在执行中")
+}
+
 // Step guards one observation step.
 func step(o *Obs, name string, f func()) bool {
 	if o.Panic != "" {
@@ -288,21 +297,22 @@ func step(o *Obs, name string, f func()) bool {
 func Eval(vm *ds.Context, src string, rerun bool) Obs {
 	var o Obs
 	var err error
-	step(&o, "Parse", func() { err = vm.Parse(src) })
-	if o.Panic != "" {
-		return o
-	}
-	if err != nil {
-		o.Err, o.ParseErr = err.Error(), true
-		step(&o, "GetAsmText", func() { _ = vm.GetAsmText() })
-		return o
-	}
 	n := 1
 	if rerun {
 		n = 2
 	}
 	for i := 0; i < n; i++ {
-		step(&o, "RunAfterParsed", func() { err = vm.RunAfterParsed() })
+		if i == 0 {
+			// the first evaluation goes through Run, the entry point hosts use; re-runs use RunAfterParsed
+			step(&o, "Run", func() { err = vm.Run(src) })
+			if o.Panic == "" && err != nil && IsSyntaxError(err) {
+				o.Err, o.ParseErr = err.Error(), true
+				step(&o, "GetAsmText", func() { _ = vm.GetAsmText() })
+				return o
+			}
+		} else {
+			step(&o, "RunAfterParsed", func() { err = vm.RunAfterParsed() })
+		}
 		if o.Panic != "" {
 			return o
 		}
